@@ -93,6 +93,13 @@ static void doResolve(const Json::Value& sc, Json::Value& out) {
     rel.push_back(r.relativePath());
     if (r.cgroupFs() != pat.cgroupFs()) fs_ok = false;
     if (!Fs::isDir(r.absolutePath())) fs_ok = false;
+    // a resolved path is a path like any other: canonical, and a copy of it equals and hashes like it
+    CgroupPath copy(r);
+    CgroupPath assigned(pat);
+    assigned = r;
+    if (!canonical(r) || !(copy == r) || !(assigned == r) || assigned.relativePathParts() != r.relativePathParts() ||
+        std::hash<CgroupPath>()(copy) != std::hash<CgroupPath>()(r))
+      fs_ok = false;
   }
   std::sort(rel.begin(), rel.end());
   out["resolved"] = strs(rel);
